@@ -97,168 +97,135 @@ Proof.
   constructor; simpl; intros; try discriminate; try lia; try contradiction; try constructor; auto.
 Qed.
 
+Ltac learn H :=
+  let T := type of H in
+  lazymatch goal with
+  | _ : T |- _ => fail
+  | _ => pose proof H
+  end.
+
+Ltac split_hyps :=
+  repeat match goal with
+  | H : _ /\ _ |- _ => destruct H
+  | H : Some _ = Some _ |- _ => injection H as H
+  | H : In _ (_ ++ _) |- _ => apply in_app_iff in H; destruct H as [H|H]
+  | H : In _ [_] |- _ => destruct H as [H|[]]
+  | H : In _ (filter _ _) |- _ => apply filter_In in H
+  end.
+
+Local Arguments Nat.leb : simpl never.
+
+Section InvStep.
+  Variable st : state.
+  Hypothesis I : Inv st.
+
+  Ltac sat1 :=
+    match goal with
+    | H : ?i < S (st_ninf st), n : ?i <> st_ninf st |- _ =>
+        lazymatch goal with
+        | _ : i < st_ninf st |- _ => fail
+        | _ => assert (i < st_ninf st) by lia
+        end
+    | H : rs_cur (st_rs st ?r) = Some ?i |- _ => learn (proj1 (inv_cur st I r i H))
+    | H : rs_cur (st_rs st ?r) = Some ?i |- _ => learn (proj1 (proj2 (inv_cur st I r i H)))
+    | H : rs_cur (st_rs st ?r) = Some ?i |- _ => learn (proj2 (proj2 (inv_cur st I r i H)))
+    | H : rs_cur (st_rs st ?r) = Some ?i |- _ => learn (inv_cache st I r i H)
+    | H : st_sub st ?s = Some ?i |- _ => learn (proj1 (inv_sub st I s i H))
+    | H : st_sub st ?s = Some ?i |- _ => learn (proj2 (inv_sub st I s i H))
+    | H : In ?e (i_hs (st_inf st ?i)) |- _ => learn (inv_hs st I i e H)
+    | H1 : ?i < st_ninf st, H2 : i_stopped (st_inf st ?i) = false |- _ => learn (inv_live st I i H1 H2)
+    end.
+  Ltac saturate := split_hyps; repeat (sat1; split_hyps).
+
+  Ltac close :=
+    saturate; try subst; simpl in *;
+    first [ assumption | congruence | lia
+          | solve [split; intros; first [congruence | lia]]
+          | solve [repeat split; first [assumption | congruence | lia]] ].
+
+  Ltac iff_ref :=
+    match goal with
+    | |- rs_cur (st_rs st ?r) = None <-> _ =>
+        let P1 := fresh in let P2 := fresh in let Hx := fresh in
+        destruct (inv_ref st I r) as [P1 P2]; split; intro Hx;
+        [ try (apply P1 in Hx); first [lia | congruence]
+        | first [lia | congruence | solve [apply P2; lia]] ]
+    end.
+
+  Ltac iff_some :=
+    match goal with
+    | Hc : rs_cur (st_rs st ?r) = Some _ |- Some _ = None <-> _ =>
+        let P := fresh in let Hx := fresh in
+        destruct (inv_ref st I r) as [_ P]; split; intro Hx;
+        [ discriminate | rewrite P in Hc by exact Hx; discriminate ]
+    end.
+
+  Ltac iff_none :=
+    match goal with
+    | Hc : rs_cur (st_rs st ?r) = None |- None = None <-> _ =>
+        let P := fresh in
+        destruct (inv_ref st I r) as [P _]; split; intro; [apply P; exact Hc | reflexivity]
+    end.
+
+  Ltac fin :=
+    first [ close
+          | iff_ref
+          | iff_some
+          | iff_none
+          | apply (inv_ref st I)
+          | apply (inv_nodup_cache st I)
+          | apply (inv_nodup_store st I)
+          | solve [apply (inv_sub_some st I); lia]
+          | solve [apply cache_apply_nodup; first [apply (inv_nodup_cache st I) | apply (inv_nodup_store st I)]] ].
+
+  Lemma Inv_subscribe : forall r, Inv (r_st (step st (Subscribe r))).
+  Proof.
+    intros r. simpl. destruct (rs_cur (st_rs st r)) as [i|] eqn:Hc; simpl.
+    - constructor; simpl; intros; upd_cases; try fin.
+    - constructor; simpl; intros; upd_cases; try fin.
+  Qed.
+
+  Lemma Inv_addhandler : forall s h own, Inv (r_st (step st (AddHandler s h own))).
+  Proof.
+    intros. simpl. destruct (st_sub st s) as [i|] eqn:Hs; simpl; [|exact I].
+    constructor; simpl; intros; upd_cases; try fin.
+  Qed.
+
+  Lemma Inv_removehandlers : forall s, Inv (r_st (step st (RemoveHandlers s))).
+  Proof.
+    intros. simpl. destruct (st_sub st s) as [i|] eqn:Hs; simpl; [|exact I].
+    constructor; simpl; intros; upd_cases; try fin.
+  Qed.
+
+  Lemma Inv_close : forall s, Inv (r_st (step st (Close s))).
+  Proof.
+    intros. simpl. destruct (st_sub st s) as [i|] eqn:Hs; simpl; [|exact I].
+    destruct (2 <=? rs_ref (st_rs st (i_res (st_inf st i)))) eqn:Hge; simpl.
+    - apply Nat.leb_le in Hge. constructor; simpl; intros; upd_cases; try fin.
+    - apply Nat.leb_gt in Hge. destruct (i_stopped (st_inf st i)) eqn:Hst; simpl; [exact I|].
+      constructor; simpl; intros; upd_cases; try fin.
+  Qed.
+
+  Lemma Inv_event : forall r k o, Inv (r_st (step st (Event r k o))).
+  Proof.
+    intros. simpl. destruct (rs_cur (st_rs st r)) as [i|] eqn:Hc; simpl.
+    - constructor; simpl; intros; upd_cases; try fin.
+    - constructor; simpl; intros; upd_cases; try fin.
+  Qed.
+
+  Lemma Inv_tick : forall s h, Inv (r_st (step st (Tick s h))).
+  Proof. intros. simpl. destruct (st_sub st s); exact I. Qed.
+End InvStep.
+
 Lemma Inv_step : forall st o, Inv st -> Inv (r_st (step st o)).
 Proof.
-  intros st o I. destruct I as [Icur Ilive Iref Isub Isubs Icache Indc Inds Ihs].
-  destruct o as [r|s h own|s|s|r k o|s h]; simpl.
-  - (* Subscribe *)
-    destruct (rs_cur (st_rs st r)) as [i|] eqn:Hc; simpl.
-    + destruct (Icur _ _ Hc) as [Hi [Hr Hs]].
-      constructor; simpl; intros.
-      * upd_cases; simpl in *.
-        -- inversion H; subst. auto.
-        -- apply Icur; assumption.
-      * upd_cases; simpl; [rewrite Hr in *|]; auto.
-        -- destruct (Nat.eq_dec (i_res (st_inf st i0)) (i_res (st_inf st i))) as [E|E].
-           ++ rewrite E. rewrite upd_same. simpl. rewrite <- E. rewrite <- (Ilive _ H H0). rewrite E, Hr. exact Hc.
-           ++ rewrite upd_other by (rewrite Hr in E; exact E). apply Ilive; assumption.
-      * upd_cases; simpl; [split; intros; [discriminate|lia]|apply Iref].
-      * upd_cases; simpl in *.
-        -- inversion H; subst. split; [lia|assumption].
-        -- destruct (Isub _ _ H). split; [lia|assumption].
-      * upd_cases; simpl; [discriminate|]. apply Isubs. lia.
-      * upd_cases; simpl in *; [inversion H; subst; apply Icache; assumption|apply Icache; assumption].
-      * apply Indc.
-      * upd_cases; simpl; apply Inds.
-      * specialize (Ihs _ _ H). destruct (Isub _ _ Ihs) as [Hlt _].
-        rewrite upd_other by lia. exact Ihs.
-    + constructor; simpl; intros.
-      * upd_cases; simpl in *.
-        -- inversion H; subst. rewrite upd_same. simpl. auto.
-        -- destruct (Icur _ _ H) as [Hi [Hr Hs]]. rewrite upd_other by lia. auto.
-      * destruct (Nat.eq_dec i (st_ninf st)) as [E|E].
-        -- subst. rewrite upd_same. simpl. rewrite upd_same. reflexivity.
-        -- rewrite upd_other in * by assumption.
-           assert (Hlt : i < st_ninf st) by lia.
-           specialize (Ilive _ Hlt H0).
-           destruct (Nat.eq_dec (i_res (st_inf st i)) r) as [E2|E2].
-           ++ rewrite E2 in Ilive. congruence.
-           ++ rewrite upd_other by assumption. exact Ilive.
-      * upd_cases; simpl; [split; intros; [discriminate|lia]|apply Iref].
-      * upd_cases; simpl in *.
-        -- inversion H; subst. split; lia.
-        -- destruct (Isub _ _ H). split; lia.
-      * upd_cases; simpl; [discriminate|]. apply Isubs. lia.
-      * upd_cases; simpl in *.
-        -- inversion H; subst. rewrite upd_same. reflexivity.
-        -- destruct (Icur _ _ H) as [Hi _]. rewrite upd_other by lia. apply Icache; assumption.
-      * upd_cases; simpl; [apply Inds|apply Indc].
-      * upd_cases; simpl; apply Inds.
-      * destruct (Nat.eq_dec i (st_ninf st)) as [E|E].
-        -- subst. rewrite upd_same in H. simpl in H. contradiction.
-        -- rewrite upd_other in H by assumption. specialize (Ihs _ _ H).
-           destruct (Isub _ _ Ihs) as [Hlt _]. rewrite upd_other by lia. exact Ihs.
-  - (* AddHandler *)
-    destruct (st_sub st s) as [i|] eqn:Hs; simpl; [|constructor; assumption].
-    constructor; simpl; intros.
-    + destruct (Icur _ _ H) as [Hi [Hr Hst]]. upd_cases; simpl; auto.
-    + upd_cases; simpl in *; apply Ilive; assumption.
-    + apply Iref.
-    + apply Isub; assumption.
-    + apply Isubs; assumption.
-    + upd_cases; simpl; apply Icache; assumption.
-    + upd_cases; simpl; apply Indc.
-    + apply Inds.
-    + upd_cases; simpl in *.
-      * rewrite in_app_iff in H. destruct H as [H|[H|[]]]; [apply Ihs; assumption|subst; simpl; assumption].
-      * apply Ihs; assumption.
-  - (* RemoveHandlers *)
-    destruct (st_sub st s) as [i|] eqn:Hs; simpl; [|constructor; assumption].
-    constructor; simpl; intros.
-    + destruct (Icur _ _ H) as [Hi [Hr Hst]]. upd_cases; simpl; auto.
-    + upd_cases; simpl in *; apply Ilive; assumption.
-    + apply Iref.
-    + apply Isub; assumption.
-    + apply Isubs; assumption.
-    + upd_cases; simpl; apply Icache; assumption.
-    + upd_cases; simpl; apply Indc.
-    + apply Inds.
-    + upd_cases; simpl in *.
-      * apply filter_In in H. destruct H as [H _]. apply Ihs; assumption.
-      * apply Ihs; assumption.
-  - (* Close *)
-    destruct (st_sub st s) as [i|] eqn:Hs; simpl; [|constructor; assumption].
-    destruct (2 <=? rs_ref (st_rs st (i_res (st_inf st i)))) eqn:Hge; simpl.
-    + apply Nat.leb_le in Hge.
-      constructor; simpl; intros.
-      * upd_cases; simpl in *; apply Icur; assumption.
-      * destruct (Nat.eq_dec (i_res (st_inf st i0)) (i_res (st_inf st i))) as [E|E].
-        -- rewrite E, upd_same. simpl. rewrite <- E. apply Ilive; assumption.
-        -- rewrite upd_other by assumption. apply Ilive; assumption.
-      * upd_cases; simpl; [|apply Iref].
-        split; intros H.
-        -- apply Iref in H. lia.
-        -- lia.
-      * apply Isub; assumption.
-      * apply Isubs; assumption.
-      * upd_cases; simpl in *; apply Icache; assumption.
-      * apply Indc.
-      * upd_cases; simpl; apply Inds.
-      * apply Ihs; assumption.
-    + destruct (i_stopped (st_inf st i)) eqn:Hst; simpl; [constructor; assumption|].
-      destruct (Isub _ _ Hs) as [Hslt Hilt].
-      pose proof (Ilive _ Hilt Hst) as Hcur.
-      constructor; simpl; intros.
-      * upd_cases; simpl in *; try discriminate.
-        -- destruct (Icur _ _ H) as [_ [Hr _]]. congruence.
-        -- apply Icur; assumption.
-      * destruct (Nat.eq_dec i0 i) as [E|E].
-        -- subst. rewrite upd_same in H0. simpl in H0. discriminate.
-        -- rewrite upd_other in * by assumption.
-           specialize (Ilive _ H H0).
-           destruct (Nat.eq_dec (i_res (st_inf st i0)) (i_res (st_inf st i))) as [E2|E2].
-           ++ rewrite E2 in Ilive. congruence.
-           ++ rewrite upd_other by assumption. exact Ilive.
-      * upd_cases; simpl; [split; reflexivity|apply Iref].
-      * apply Isub; assumption.
-      * apply Isubs; assumption.
-      * upd_cases; simpl in *; try discriminate.
-        -- destruct (Icur _ _ H) as [_ [Hr _]]. congruence.
-        -- apply Icache; assumption.
-      * upd_cases; simpl; apply Indc.
-      * upd_cases; simpl; apply Inds.
-      * upd_cases; simpl in *; apply Ihs; assumption.
-  - (* Event *)
-    destruct (rs_cur (st_rs st r)) as [i|] eqn:Hc; simpl.
-    + destruct (Icur _ _ Hc) as [Hi [Hr Hst]].
-      constructor; simpl; intros.
-      * upd_cases; simpl in *; auto.
-        -- destruct (Icur _ _ H) as [? [? ?]]. auto.
-        -- destruct (Icur _ _ H) as [? [? ?]]. auto.
-      * destruct (Nat.eq_dec i0 i) as [E|E].
-        -- subst. rewrite upd_same. simpl. rewrite Hr, upd_same. simpl. exact Hc.
-        -- rewrite upd_other in * by assumption. specialize (Ilive _ H H0).
-           destruct (Nat.eq_dec (i_res (st_inf st i0)) r) as [E2|E2].
-           ++ rewrite E2 in *. congruence.
-           ++ rewrite upd_other by assumption. exact Ilive.
-      * upd_cases; simpl; apply Iref.
-      * apply Isub; assumption.
-      * apply Isubs; assumption.
-      * destruct (Nat.eq_dec r0 r) as [E|E].
-        -- subst. rewrite upd_same in *. simpl in *. rewrite Hc in H. inversion H; subst.
-           rewrite upd_same. simpl. rewrite (Icache _ _ Hc). reflexivity.
-        -- rewrite upd_other in * by assumption.
-           destruct (Nat.eq_dec i0 i) as [E2|E2].
-           ++ subst. destruct (Icur _ _ H) as [_ [Hr2 _]]. congruence.
-           ++ rewrite upd_other by assumption. apply Icache; assumption.
-      * upd_cases; simpl; [apply cache_apply_nodup|]; apply Indc.
-      * upd_cases; simpl; [apply cache_apply_nodup|]; apply Inds.
-      * upd_cases; simpl in *; apply Ihs; assumption.
-    + constructor; simpl; intros.
-      * upd_cases; simpl in *; [congruence|apply Icur; assumption].
-      * specialize (Ilive _ H H0).
-        destruct (Nat.eq_dec (i_res (st_inf st i)) r) as [E|E].
-        -- rewrite E in Ilive. congruence.
-        -- rewrite upd_other by assumption. exact Ilive.
-      * upd_cases; simpl; apply Iref.
-      * apply Isub; assumption.
-      * apply Isubs; assumption.
-      * upd_cases; simpl in *; [congruence|apply Icache; assumption].
-      * apply Indc.
-      * upd_cases; simpl; [apply cache_apply_nodup|]; apply Inds.
-      * apply Ihs; assumption.
-  - (* Tick *)
-    destruct (st_sub st s) as [i|] eqn:Hs; simpl; constructor; assumption.
+  intros st o I. destruct o.
+  - apply Inv_subscribe, I.
+  - apply Inv_addhandler, I.
+  - apply Inv_removehandlers, I.
+  - apply Inv_close, I.
+  - apply Inv_event, I.
+  - apply Inv_tick, I.
 Qed.
 
 Lemma Inv_run_from : forall ops st, Inv st -> Inv (run_from st ops).
@@ -266,3 +233,1233 @@ Proof. induction ops as [|o ops IH]; intros st I; simpl; [exact I|]. apply IH, I
 
 Lemma Inv_run : forall ops, Inv (run ops).
 Proof. intros. apply Inv_run_from, Inv_init. Qed.
+
+(* ================================================================== *)
+(* isolation of handler operations: a simulation between a run and the run without a's AddHandler/RemoveHandlers *)
+(* ================================================================== *)
+Module Iso.
+(* ---- the simulation relation ---- *)
+Definition hs_but (a : nat) (l : list hent) : list hent :=
+  filter (fun e => negb (Nat.eqb (he_sub e) a)) l.
+
+Definition isim (a : nat) (i1 i2 : inf) : Prop :=
+  i_res i1 = i_res i2 /\ i_stopped i1 = i_stopped i2 /\
+  i_cache i1 = i_cache i2 /\ hs_but a (i_hs i1) = hs_but a (i_hs i2).
+
+Record Sim (a : nat) (s1 s2 : state) : Prop := mkSim {
+  sim_ninf : st_ninf s1 = st_ninf s2;
+  sim_nsub : st_nsub s1 = st_nsub s2;
+  sim_sub : forall s, st_sub s1 s = st_sub s2 s;
+  sim_rs : forall r, st_rs s1 r = st_rs s2 r;
+  sim_inf : forall i, isim a (st_inf s1 i) (st_inf s2 i) }.
+
+Lemma Sim_refl : forall a s, Sim a s s.
+Proof. intros a s. constructor; try reflexivity. intro i. repeat split. Qed.
+
+(* ---- utilities ---- *)
+Lemma upd_rel : forall {A : Type} (R : A -> A -> Prop) f g k v w,
+  (forall x, R (f x) (g x)) -> R v w -> forall x, R (upd f k v x) (upd g k w x).
+Proof. intros A R f g k v w H1 H2 x. unfold upd. destruct (Nat.eqb x k); auto. Qed.
+
+Lemma upd_eq : forall {A : Type} (f g : nat -> A) k v,
+  (forall x, f x = g x) -> forall x, upd f k v x = upd g k v x.
+Proof. intros A f g k v H x. unfold upd. destruct (Nat.eqb x k); auto. Qed.
+
+Lemma upd_rel_left : forall {A : Type} (R : A -> A -> Prop) f g k v,
+  (forall x, R (f x) (g x)) -> R v (g k) -> forall x, R (upd f k v x) (g x).
+Proof.
+  intros A R f g k v H1 H2 x. unfold upd. destruct (Nat.eqb_spec x k); subst; auto.
+Qed.
+
+Lemma filter_fanout : forall a hs n,
+  filter (not_to_sub a) (fanout hs n) = fanout (hs_but a hs) n.
+Proof.
+  intros a hs [n|]; simpl; [|reflexivity].
+  induction hs as [|e hs IH]; simpl; [reflexivity|].
+  unfold not_to_sub at 1, d_sub at 1. simpl.
+  destruct (Nat.eqb (he_sub e) a); simpl; rewrite IH; reflexivity.
+Qed.
+
+Lemma filter_replay_ne : forall a s h c, s <> a ->
+  filter (not_to_sub a) (replay s h c) = replay s h c.
+Proof.
+  intros a s h c Hne. unfold replay.
+  induction c as [|o c IH]; simpl; [reflexivity|].
+  unfold not_to_sub at 1, d_sub at 1. simpl.
+  destruct (Nat.eqb_spec s a); [contradiction|]. simpl. rewrite IH. reflexivity.
+Qed.
+
+Lemma filter_replay_eq : forall a h c,
+  filter (not_to_sub a) (replay a h c) = [].
+Proof.
+  intros a h c. unfold replay.
+  induction c as [|o c IH]; simpl; [reflexivity|].
+  unfold not_to_sub at 1, d_sub at 1. simpl.
+  rewrite Nat.eqb_refl. simpl. exact IH.
+Qed.
+
+Lemma hs_but_app : forall a l1 l2, hs_but a (l1 ++ l2) = hs_but a l1 ++ hs_but a l2.
+Proof. intros. unfold hs_but. apply filter_app. Qed.
+
+Lemma filter_comm : forall {A : Type} (f g : A -> bool) l,
+  filter f (filter g l) = filter g (filter f l).
+Proof.
+  intros A f g l. induction l as [|x l IH]; simpl; [reflexivity|].
+  destruct (f x) eqn:Ef, (g x) eqn:Eg; simpl; rewrite ?Ef, ?Eg, IH; reflexivity.
+Qed.
+
+Lemma filter_idem : forall {A : Type} (f : A -> bool) l,
+  filter f (filter f l) = filter f l.
+Proof.
+  intros A f l. induction l as [|x l IH]; simpl; [reflexivity|].
+  destruct (f x) eqn:Ef; simpl; rewrite ?Ef, IH; reflexivity.
+Qed.
+
+Lemma has_own_but : forall a s h hs, s <> a ->
+  has_own s h hs = has_own s h (hs_but a hs).
+Proof.
+  intros a s h hs Hne. unfold has_own.
+  induction hs as [|e hs IH]; simpl; [reflexivity|].
+  destruct (Nat.eqb_spec (he_sub e) a) as [E|E]; simpl.
+  - destruct (Nat.eqb_spec (he_sub e) s) as [E'|E']; [congruence|]. simpl. exact IH.
+  - rewrite IH. reflexivity.
+Qed.
+
+Lemma filter_imp : forall {A : Type} (f g : A -> bool) l,
+  (forall x, f x = true -> g x = true) -> filter f (filter g l) = filter f l.
+Proof.
+  intros A f g l H. induction l as [|x l IH]; simpl; [reflexivity|].
+  destruct (g x) eqn:Eg; simpl.
+  - rewrite IH. reflexivity.
+  - destruct (f x) eqn:Ef; [|exact IH]. apply H in Ef. congruence.
+Qed.
+
+(* ---- Lemma A: both sides do the same operation ---- *)
+Lemma stepA : forall a s1 s2 o, Sim a s1 s2 ->
+  Sim a (r_st (step s1 o)) (r_st (step s2 o)) /\
+  filter (not_to_sub a) (r_out (step s1 o)) = filter (not_to_sub a) (r_out (step s2 o)) /\
+  r_panic (step s1 o) = r_panic (step s2 o).
+Proof.
+  intros a s1 s2 o [Hni Hns Hsub Hrs Hinf].
+  destruct s1 as [ni1 inf1 ns1 sub1 rs1], s2 as [ni2 inf2 ns2 sub2 rs2].
+  simpl in Hni, Hns, Hsub, Hrs, Hinf. subst ni2 ns2.
+  destruct o as [r | s h own | s | s | r k o | s h]; unfold step; cbn [st_ninf st_inf st_nsub st_sub st_rs].
+  - (* Subscribe *)
+    rewrite (Hrs r). destruct (rs_cur (rs2 r)) as [i|]; cbn [r_st r_out r_panic].
+    + split; [|split; reflexivity].
+      constructor; cbn [st_ninf st_inf st_nsub st_sub st_rs]; auto.
+      * apply upd_eq; assumption.
+      * apply upd_eq; assumption.
+    + split; [|split; reflexivity].
+      constructor; cbn [st_ninf st_inf st_nsub st_sub st_rs]; auto.
+      * apply upd_eq; assumption.
+      * apply upd_eq; assumption.
+      * apply upd_rel; [assumption|]. repeat split.
+  - (* AddHandler *)
+    rewrite (Hsub s). destruct (sub2 s) as [i|]; cbn [r_st r_out r_panic].
+    + destruct (Hinf i) as (Hr & Hst & Hc & Hh).
+      split; [|split; [rewrite Hc; reflexivity | reflexivity]].
+      constructor; cbn [st_ninf st_inf st_nsub st_sub st_rs]; auto.
+      apply upd_rel; [assumption|].
+      unfold isim, set_hs; cbn [i_res i_stopped i_cache i_hs].
+      repeat split; auto. rewrite !hs_but_app, Hh. reflexivity.
+    + split; [|split; reflexivity].
+      constructor; cbn [st_ninf st_inf st_nsub st_sub st_rs]; auto.
+  - (* RemoveHandlers *)
+    rewrite (Hsub s). destruct (sub2 s) as [i|]; cbn [r_st r_out r_panic].
+    + destruct (Hinf i) as (Hr & Hst & Hc & Hh).
+      split; [|split; reflexivity].
+      constructor; cbn [st_ninf st_inf st_nsub st_sub st_rs]; auto.
+      apply upd_rel; [assumption|].
+      unfold isim, set_hs; cbn [i_res i_stopped i_cache i_hs].
+      repeat split; auto. unfold hs_but in *.
+      rewrite (filter_comm _ _ (i_hs (inf1 i))), (filter_comm _ _ (i_hs (inf2 i))), Hh.
+      reflexivity.
+    + split; [|split; reflexivity].
+      constructor; cbn [st_ninf st_inf st_nsub st_sub st_rs]; auto.
+  - (* Close *)
+    rewrite (Hsub s). destruct (sub2 s) as [i|]; cbn [r_st r_out r_panic].
+    + destruct (Hinf i) as (Hr & Hst & Hc & Hh).
+      rewrite Hr, Hst, (Hrs (i_res (inf2 i))).
+      destruct (2 <=? rs_ref (rs2 (i_res (inf2 i)))); cbn [r_st r_out r_panic].
+      * split; [|split; reflexivity].
+        constructor; cbn [st_ninf st_inf st_nsub st_sub st_rs]; auto.
+        apply upd_eq; assumption.
+      * destruct (i_stopped (inf2 i)); cbn [r_st r_out r_panic].
+        -- split; [|split; reflexivity].
+           constructor; cbn [st_ninf st_inf st_nsub st_sub st_rs]; auto.
+        -- split; [|split; reflexivity].
+           constructor; cbn [st_ninf st_inf st_nsub st_sub st_rs]; auto.
+           ++ apply upd_eq; assumption.
+           ++ apply upd_rel; [assumption|].
+              unfold isim; cbn [i_res i_stopped i_cache i_hs]. repeat split; auto.
+    + split; [|split; reflexivity].
+      constructor; cbn [st_ninf st_inf st_nsub st_sub st_rs]; auto.
+  - (* Event *)
+    rewrite (Hrs r). destruct (rs_cur (rs2 r)) as [i|]; cbn [r_st r_out r_panic].
+    + destruct (Hinf i) as (Hr & Hst & Hc & Hh).
+      rewrite Hc.
+      split; [|split; [rewrite !filter_fanout, Hh; reflexivity | reflexivity]].
+      constructor; cbn [st_ninf st_inf st_nsub st_sub st_rs]; auto.
+      * apply upd_eq; assumption.
+      * apply upd_rel; [assumption|].
+        unfold isim; cbn [i_res i_stopped i_cache i_hs]. repeat split; auto.
+    + split; [|split; reflexivity].
+      constructor; cbn [st_ninf st_inf st_nsub st_sub st_rs]; auto.
+      apply upd_eq; assumption.
+  - (* Tick *)
+    rewrite (Hsub s). destruct (sub2 s) as [i|]; cbn [r_st r_out r_panic].
+    + destruct (Hinf i) as (Hr & Hst & Hc & Hh).
+      split; [constructor; cbn [st_ninf st_inf st_nsub st_sub st_rs]; auto|].
+      split; [|reflexivity].
+      rewrite Hc.
+      destruct (Nat.eq_dec s a) as [E|E].
+      * subst s.
+        destruct (has_own a h (i_hs (inf1 i))), (has_own a h (i_hs (inf2 i)));
+          rewrite ?filter_replay_eq; reflexivity.
+      * rewrite (has_own_but a s h (i_hs (inf1 i)) E), (has_own_but a s h (i_hs (inf2 i)) E), Hh.
+        reflexivity.
+    + split; [|split; reflexivity].
+      constructor; cbn [st_ninf st_inf st_nsub st_sub st_rs]; auto.
+Qed.
+
+(* ---- Lemma B: the left side alone does an erased operation ---- *)
+Lemma stepB : forall a s1 s2 o, is_handler_op_of a o = true -> Sim a s1 s2 ->
+  Sim a (r_st (step s1 o)) s2 /\
+  filter (not_to_sub a) (r_out (step s1 o)) = [] /\
+  r_panic (step s1 o) = false.
+Proof.
+  intros a s1 s2 o Ho [Hni Hns Hsub Hrs Hinf].
+  destruct s1 as [ni1 inf1 ns1 sub1 rs1], s2 as [ni2 inf2 ns2 sub2 rs2].
+  simpl in Hni, Hns, Hsub, Hrs, Hinf. subst ni2 ns2.
+  destruct o as [r | s h own | s | s | r k o | s h]; simpl in Ho; try discriminate Ho;
+    apply Nat.eqb_eq in Ho; subst s;
+    unfold step; cbn [st_ninf st_inf st_nsub st_sub st_rs].
+  - (* AddHandler a *)
+    destruct (sub1 a) as [i|]; cbn [r_st r_out r_panic].
+    + split; [|split; [apply filter_replay_eq | reflexivity]].
+      constructor; cbn [st_ninf st_inf st_nsub st_sub st_rs]; auto.
+      apply upd_rel_left; [assumption|].
+      destruct (Hinf i) as (Hr & Hst & Hc & Hh).
+      unfold isim, set_hs; cbn [i_res i_stopped i_cache i_hs].
+      repeat split; auto. rewrite hs_but_app, <- Hh.
+      unfold hs_but at 2. simpl. rewrite Nat.eqb_refl. simpl. apply app_nil_r.
+    + split; [|split; reflexivity].
+      constructor; cbn [st_ninf st_inf st_nsub st_sub st_rs]; auto.
+  - (* RemoveHandlers a *)
+    destruct (sub1 a) as [i|]; cbn [r_st r_out r_panic].
+    + split; [|split; reflexivity].
+      constructor; cbn [st_ninf st_inf st_nsub st_sub st_rs]; auto.
+      apply upd_rel_left; [assumption|].
+      destruct (Hinf i) as (Hr & Hst & Hc & Hh).
+      unfold isim, set_hs; cbn [i_res i_stopped i_cache i_hs].
+      repeat split; auto. rewrite <- Hh. unfold hs_but. apply filter_idem.
+    + split; [|split; reflexivity].
+      constructor; cbn [st_ninf st_inf st_nsub st_sub st_rs]; auto.
+Qed.
+
+(* ---- runs ---- *)
+Lemma outs_from_cons : forall st o ops,
+  outs_from st (o :: ops) = r_out (step st o) ++ outs_from (r_st (step st o)) ops.
+Proof. reflexivity. Qed.
+
+Lemma erase_cons : forall a o ops,
+  erase_handler_ops a (o :: ops) =
+  if is_handler_op_of a o then erase_handler_ops a ops else o :: erase_handler_ops a ops.
+Proof.
+  intros. unfold erase_handler_ops. simpl. destruct (is_handler_op_of a o); reflexivity.
+Qed.
+
+Lemma isolation_from : forall a ops s1 s2, Sim a s1 s2 ->
+  filter (not_to_sub a) (outs_from s1 ops) =
+    filter (not_to_sub a) (outs_from s2 (erase_handler_ops a ops)) /\
+  panics_from s1 ops = panics_from s2 (erase_handler_ops a ops).
+Proof.
+  intros a ops. induction ops as [|o ops IH]; intros s1 s2 HS.
+  - split; reflexivity.
+  - rewrite erase_cons, outs_from_cons, filter_app.
+    destruct (is_handler_op_of a o) eqn:E.
+    + destruct (stepB a s1 s2 o E HS) as (HS' & Ho & Hp).
+      destruct (IH _ _ HS') as (IHo & IHp).
+      split.
+      * rewrite Ho, IHo. reflexivity.
+      * cbn [panics_from]. rewrite Hp, IHp. reflexivity.
+    + destruct (stepA a s1 s2 o HS) as (HS' & Ho & Hp).
+      destruct (IH _ _ HS') as (IHo & IHp).
+      split.
+      * rewrite outs_from_cons, filter_app, Ho, IHo. reflexivity.
+      * cbn [panics_from]. rewrite Hp, IHp. reflexivity.
+Qed.
+
+Theorem isolation_handlers : forall (a : nat) (ops : list op),
+  filter (not_to_sub a) (outs ops) = filter (not_to_sub a) (outs (erase_handler_ops a ops)).
+Proof.
+  intros a ops. unfold outs. apply (isolation_from a ops init init (Sim_refl a init)).
+Qed.
+
+Corollary isolation_handlers_b : forall (a b : nat) (ops : list op), a <> b ->
+  filter (to_sub b) (outs ops) = filter (to_sub b) (outs (erase_handler_ops a ops)).
+Proof.
+  intros a b ops Hne.
+  assert (Himp : forall d, to_sub b d = true -> not_to_sub a d = true).
+  { intros d Hd. unfold to_sub in Hd. unfold not_to_sub.
+    apply Nat.eqb_eq in Hd. destruct (Nat.eqb_spec (d_sub d) a); [congruence|reflexivity]. }
+  rewrite <- (filter_imp (to_sub b) (not_to_sub a) (outs ops) Himp).
+  rewrite <- (filter_imp (to_sub b) (not_to_sub a) (outs (erase_handler_ops a ops)) Himp).
+  rewrite (isolation_handlers a ops). reflexivity.
+Qed.
+
+Theorem isolation_handlers_panics : forall (a : nat) (ops : list op),
+  panics_from init ops = panics_from init (erase_handler_ops a ops).
+Proof.
+  intros a ops. apply (isolation_from a ops init init (Sim_refl a init)).
+Qed.
+
+(* the same, for runs started in any state *)
+Theorem isolation_handlers_from : forall (a : nat) (st : state) (ops : list op),
+  filter (not_to_sub a) (outs_from st ops) =
+    filter (not_to_sub a) (outs_from st (erase_handler_ops a ops)) /\
+  panics_from st ops = panics_from st (erase_handler_ops a ops).
+Proof. intros a st ops. apply isolation_from, Sim_refl. Qed.
+End Iso.
+
+(* ================================================================== *)
+(* the handler tables are what the callers registered; replay, delivery, removal, ticks *)
+(* ================================================================== *)
+Module Link.
+(* C18Link.v — link between the tracker (specification side) and the model state,
+   and the delivery theorems of pkg/dynamic/informer that follow from it. *)
+
+Local Arguments Nat.leb : simpl never.
+Local Arguments Nat.ltb : simpl never.
+
+(* ------------------------------------------------------------------ *)
+(* list utilities                                                       *)
+(* ------------------------------------------------------------------ *)
+Lemma filter_nil_of : forall A (f : A -> bool) l,
+  (forall e, In e l -> f e = false) -> filter f l = [].
+Proof.
+  intros A f l. induction l as [|a l IH]; simpl; intros H; [reflexivity|].
+  rewrite (H a) by (left; reflexivity). apply IH. intros e He. apply H. right. exact He.
+Qed.
+
+Lemma filter_sub_remove_same : forall s l,
+  filter (fun e => Nat.eqb (he_sub e) s) (filter (fun e => negb (Nat.eqb (he_sub e) s)) l) = [].
+Proof.
+  intros s l. induction l as [|a l IH]; simpl; [reflexivity|].
+  destruct (Nat.eqb (he_sub a) s) eqn:E; simpl; [exact IH|]. rewrite E. exact IH.
+Qed.
+
+Lemma filter_sub_remove_other : forall s0 s l, s0 <> s ->
+  filter (fun e => Nat.eqb (he_sub e) s0) (filter (fun e => negb (Nat.eqb (he_sub e) s)) l) =
+  filter (fun e => Nat.eqb (he_sub e) s0) l.
+Proof.
+  intros s0 s l Hne. induction l as [|a l IH]; simpl; [reflexivity|].
+  destruct (Nat.eqb (he_sub a) s) eqn:E; simpl.
+  - apply Nat.eqb_eq in E. destruct (Nat.eqb_spec (he_sub a) s0) as [E0|E0]; [congruence|exact IH].
+  - rewrite IH. reflexivity.
+Qed.
+
+Lemma fanout_nil : forall n, fanout [] n = [].
+Proof. destruct n; reflexivity. Qed.
+
+Lemma filter_fanout : forall s hs n,
+  filter (to_sub s) (fanout hs n) = fanout (filter (fun e => Nat.eqb (he_sub e) s) hs) n.
+Proof.
+  intros s hs n. destruct n as [n|]; simpl; [|reflexivity].
+  induction hs as [|a hs IH]; simpl; [reflexivity|].
+  unfold to_sub at 1. unfold d_sub at 1. simpl.
+  destruct (Nat.eqb (he_sub a) s); simpl; rewrite IH; reflexivity.
+Qed.
+
+Lemma filter_replay_other : forall s s' h c, s' <> s -> filter (to_sub s) (replay s' h c) = [].
+Proof.
+  intros s s' h c Hne. unfold replay. induction c as [|a c IH]; simpl; [reflexivity|].
+  unfold to_sub at 1. unfold d_sub at 1. simpl.
+  destruct (Nat.eqb_spec s' s); [contradiction|exact IH].
+Qed.
+
+Lemma has_own_filter : forall s h hs,
+  has_own s h hs = has_own s h (filter (fun e => Nat.eqb (he_sub e) s) hs).
+Proof.
+  intros s h hs. unfold has_own. induction hs as [|a hs IH]; simpl; [reflexivity|].
+  destruct (Nat.eqb (he_sub a) s) eqn:E; simpl.
+  - rewrite E. simpl. rewrite IH. reflexivity.
+  - exact IH.
+Qed.
+
+Definition mk_he (s : nat) (p : nat * bool) : hent := mkHe s (fst p) (snd p).
+
+Lemma has_own_map : forall s h reg,
+  has_own s h (map (mk_he s) reg) = existsb (fun p => Nat.eqb (fst p) h && snd p) reg.
+Proof.
+  intros s h reg. unfold has_own. induction reg as [|a reg IH]; simpl; [reflexivity|].
+  rewrite Nat.eqb_refl. simpl. rewrite IH. reflexivity.
+Qed.
+
+Lemma has_own_none : forall s h hs,
+  (forall e, In e hs -> he_sub e <> s) -> has_own s h hs = false.
+Proof.
+  intros s h hs H. unfold has_own. induction hs as [|a hs IH]; simpl; [reflexivity|].
+  destruct (Nat.eqb_spec (he_sub a) s) as [E|E].
+  - exfalso. apply (H a); [left; reflexivity|exact E].
+  - simpl. apply IH. intros e He. apply H. right. exact He.
+Qed.
+
+(* ------------------------------------------------------------------ *)
+(* Part 1: the link invariant                                           *)
+(* ------------------------------------------------------------------ *)
+Record Link (tr : tracker) (st : state) : Prop := {
+  lk_nsub : t_nsub tr = st_nsub st;
+  lk_store : forall r, t_store tr r = rs_store (st_rs st r);
+  lk_reg : forall s i, st_sub st s = Some i ->
+             filter (fun e => Nat.eqb (he_sub e) s) (i_hs (st_inf st i)) = map (mk_he s) (t_reg tr s);
+  lk_reg_none : forall s, st_sub st s = None -> t_reg tr s = []
+}.
+
+Lemma Link_init : Link tr0 init.
+Proof. constructor; simpl; intros; try reflexivity; discriminate. Qed.
+
+Section LinkStep.
+  Variable tr : tracker.
+  Variable st : state.
+  Hypothesis I : Inv st.
+  Hypothesis L : Link tr st.
+
+  Lemma fresh_sub_none : st_sub st (st_nsub st) = None.
+  Proof.
+    destruct (st_sub st (st_nsub st)) as [i|] eqn:E; [|reflexivity].
+    apply (inv_sub st I) in E. lia.
+  Qed.
+
+  Lemma no_fresh_entry : forall i,
+    filter (fun e => Nat.eqb (he_sub e) (st_nsub st)) (i_hs (st_inf st i)) = [].
+  Proof.
+    intros i. apply filter_nil_of. intros e He.
+    apply (inv_hs st I) in He. apply (inv_sub st I) in He.
+    destruct (Nat.eqb_spec (he_sub e) (st_nsub st)); [lia|reflexivity].
+  Qed.
+
+  Lemma Link_subscribe : forall r, Link (track_step tr (Subscribe r)) (r_st (step st (Subscribe r))).
+  Proof.
+    intros r. simpl. destruct (rs_cur (st_rs st r)) as [i|] eqn:Hc; simpl.
+    - constructor; simpl.
+      + f_equal. apply (lk_nsub _ _ L).
+      + intros r0. rewrite (lk_store _ _ L). unfold upd.
+        destruct (Nat.eqb_spec r0 r); [subst; reflexivity|reflexivity].
+      + intros s i0 Hs. unfold upd in Hs. destruct (Nat.eqb_spec s (st_nsub st)) as [E|E].
+        * subst s. rewrite (lk_reg_none _ _ L _ fresh_sub_none). simpl. apply no_fresh_entry.
+        * apply (lk_reg _ _ L). exact Hs.
+      + intros s Hs. unfold upd in Hs. destruct (Nat.eqb_spec s (st_nsub st)); [discriminate|].
+        apply (lk_reg_none _ _ L). exact Hs.
+    - constructor; simpl.
+      + f_equal. apply (lk_nsub _ _ L).
+      + intros r0. rewrite (lk_store _ _ L). unfold upd.
+        destruct (Nat.eqb_spec r0 r); [subst; reflexivity|reflexivity].
+      + intros s i0 Hs. unfold upd in Hs. destruct (Nat.eqb_spec s (st_nsub st)) as [E|E].
+        * subst s. injection Hs as Hs. subst i0.
+          rewrite (lk_reg_none _ _ L _ fresh_sub_none). rewrite upd_same. reflexivity.
+        * pose proof (inv_sub st I s i0 Hs) as [_ Hlt].
+          rewrite upd_other by lia. apply (lk_reg _ _ L). exact Hs.
+      + intros s Hs. unfold upd in Hs. destruct (Nat.eqb_spec s (st_nsub st)); [discriminate|].
+        apply (lk_reg_none _ _ L). exact Hs.
+  Qed.
+
+  Lemma Link_addhandler : forall s h own,
+    Link (track_step tr (AddHandler s h own)) (r_st (step st (AddHandler s h own))).
+  Proof.
+    intros s h own. unfold track_step. simpl.
+    destruct (st_sub st s) as [i|] eqn:Hs; simpl.
+    - pose proof (inv_sub st I s i Hs) as [Hlt _].
+      rewrite <- (lk_nsub _ _ L) in Hlt.
+      destruct (Nat.ltb_spec s (t_nsub tr)) as [_|Hge]; [|lia].
+      constructor; simpl.
+      + apply (lk_nsub _ _ L).
+      + apply (lk_store _ _ L).
+      + intros s0 i0 Hs0. unfold upd at 1. destruct (Nat.eqb_spec i0 i) as [Ei|Ei].
+        * subst i0. simpl. rewrite filter_app. rewrite (lk_reg _ _ L s0 i Hs0). simpl.
+          unfold upd. destruct (Nat.eqb_spec s s0) as [Es|Es].
+          -- subst s0. rewrite Nat.eqb_refl. rewrite map_app. reflexivity.
+          -- destruct (Nat.eqb_spec s0 s); [congruence|]. apply app_nil_r.
+        * rewrite (lk_reg _ _ L s0 i0 Hs0). unfold upd.
+          destruct (Nat.eqb_spec s0 s); [subst; congruence|reflexivity].
+      + intros s0 Hs0. unfold upd. destruct (Nat.eqb_spec s0 s); [subst; congruence|].
+        apply (lk_reg_none _ _ L). exact Hs0.
+    - destruct (Nat.ltb_spec s (t_nsub tr)) as [Hlt|_]; [|exact L].
+      exfalso. rewrite (lk_nsub _ _ L) in Hlt. apply (inv_sub_some st I s Hlt). exact Hs.
+  Qed.
+
+  Lemma Link_removehandlers : forall s,
+    Link (track_step tr (RemoveHandlers s)) (r_st (step st (RemoveHandlers s))).
+  Proof.
+    intros s. simpl. destruct (st_sub st s) as [i|] eqn:Hs; simpl.
+    - constructor; simpl.
+      + apply (lk_nsub _ _ L).
+      + apply (lk_store _ _ L).
+      + intros s0 i0 Hs0. unfold upd at 1. destruct (Nat.eqb_spec i0 i) as [Ei|Ei].
+        * subst i0. simpl. unfold upd. destruct (Nat.eqb_spec s0 s) as [Es|Es].
+          -- subst s0. apply filter_sub_remove_same.
+          -- rewrite filter_sub_remove_other by exact Es. apply (lk_reg _ _ L). exact Hs0.
+        * rewrite (lk_reg _ _ L s0 i0 Hs0). unfold upd.
+          destruct (Nat.eqb_spec s0 s); [subst; congruence|reflexivity].
+      + intros s0 Hs0. unfold upd. destruct (Nat.eqb_spec s0 s); [reflexivity|].
+        apply (lk_reg_none _ _ L). exact Hs0.
+    - constructor; simpl.
+      + apply (lk_nsub _ _ L).
+      + apply (lk_store _ _ L).
+      + intros s0 i0 Hs0. rewrite (lk_reg _ _ L s0 i0 Hs0). unfold upd.
+        destruct (Nat.eqb_spec s0 s); [subst; congruence|reflexivity].
+      + intros s0 Hs0. unfold upd. destruct (Nat.eqb_spec s0 s); [reflexivity|].
+        apply (lk_reg_none _ _ L). exact Hs0.
+  Qed.
+
+  Lemma Link_close : forall s, Link (track_step tr (Close s)) (r_st (step st (Close s))).
+  Proof.
+    intros s. simpl. destruct (st_sub st s) as [i|] eqn:Hs; simpl.
+    - destruct (2 <=? rs_ref (st_rs st (i_res (st_inf st i)))); simpl;
+        [|destruct (i_stopped (st_inf st i)); simpl].
+      + constructor; simpl.
+        * apply (lk_nsub _ _ L).
+        * intros r0. rewrite (lk_store _ _ L). unfold upd.
+          destruct (Nat.eqb_spec r0 (i_res (st_inf st i))) as [E|E]; [rewrite E; reflexivity|reflexivity].
+        * apply (lk_reg _ _ L).
+        * apply (lk_reg_none _ _ L).
+      + constructor; simpl; apply L.
+      + constructor; simpl.
+        * apply (lk_nsub _ _ L).
+        * intros r0. rewrite (lk_store _ _ L). unfold upd.
+          destruct (Nat.eqb_spec r0 (i_res (st_inf st i))) as [E|E]; [rewrite E; reflexivity|reflexivity].
+        * intros s0 i0 Hs0. unfold upd. destruct (Nat.eqb_spec i0 i) as [Ei|Ei].
+          -- subst i0. simpl. apply (lk_reg _ _ L). exact Hs0.
+          -- apply (lk_reg _ _ L). exact Hs0.
+        * apply (lk_reg_none _ _ L).
+    - constructor; simpl; apply L.
+  Qed.
+
+  Lemma Link_event : forall r k o, Link (track_step tr (Event r k o)) (r_st (step st (Event r k o))).
+  Proof.
+    intros r k o. simpl. destruct (rs_cur (st_rs st r)) as [i|] eqn:Hc; simpl.
+    - constructor; simpl.
+      + apply (lk_nsub _ _ L).
+      + intros r0. unfold upd. destruct (Nat.eqb_spec r0 r) as [E|E]; simpl.
+        * rewrite (lk_store _ _ L). reflexivity.
+        * apply (lk_store _ _ L).
+      + intros s0 i0 Hs0. unfold upd. destruct (Nat.eqb_spec i0 i) as [Ei|Ei].
+        * subst i0. simpl. apply (lk_reg _ _ L). exact Hs0.
+        * apply (lk_reg _ _ L). exact Hs0.
+      + apply (lk_reg_none _ _ L).
+    - constructor; simpl.
+      + apply (lk_nsub _ _ L).
+      + intros r0. unfold upd. destruct (Nat.eqb_spec r0 r) as [E|E]; simpl.
+        * rewrite (lk_store _ _ L). reflexivity.
+        * apply (lk_store _ _ L).
+      + apply (lk_reg _ _ L).
+      + apply (lk_reg_none _ _ L).
+  Qed.
+
+  Lemma Link_tick : forall s h, Link (track_step tr (Tick s h)) (r_st (step st (Tick s h))).
+  Proof. intros s h. simpl. destruct (st_sub st s); exact L. Qed.
+End LinkStep.
+
+Lemma Link_step : forall tr st o, Inv st -> Link tr st -> Link (track_step tr o) (r_st (step st o)).
+Proof.
+  intros tr st o I L. destruct o.
+  - apply Link_subscribe; assumption.
+  - apply Link_addhandler; assumption.
+  - apply Link_removehandlers; assumption.
+  - apply Link_close; assumption.
+  - apply Link_event; assumption.
+  - apply Link_tick; assumption.
+Qed.
+
+Lemma Link_run_from : forall ops tr st, Inv st -> Link tr st -> Link (track_from tr ops) (run_from st ops).
+Proof.
+  induction ops as [|o ops IH]; intros tr st I L; simpl; [exact L|].
+  apply IH; [apply Inv_step; exact I|apply Link_step; assumption].
+Qed.
+
+Lemma Link_run : forall ops, Link (track ops) (run ops).
+Proof. intros. apply Link_run_from; [apply Inv_init|apply Link_init]. Qed.
+
+(* ------------------------------------------------------------------ *)
+(* Part 2: theorems                                                     *)
+(* ------------------------------------------------------------------ *)
+
+(* Theorem 3: replay on add *)
+Lemma replay_on_add_gen : forall st s h own i, Inv st ->
+  st_sub st s = Some i ->
+  r_out (step st (AddHandler s h own)) = replay s h (sub_cache st s) /\
+  NoDup (sub_cache st s) /\
+  (sub_live st s = true ->
+     exists r, sub_res st s = Some r /\ sub_cache st s = store st r).
+Proof.
+  intros st s h own i I Hs. unfold sub_cache, sub_live, sub_res, store. simpl. rewrite Hs. simpl.
+  split; [reflexivity|]. split; [apply (inv_nodup_cache st I)|].
+  intros Hl. exists (i_res (st_inf st i)). split; [reflexivity|].
+  destruct (rs_cur (st_rs st (i_res (st_inf st i)))) as [j|] eqn:Hc; [|discriminate].
+  apply Nat.eqb_eq in Hl. subst j. apply (inv_cache st I). exact Hc.
+Qed.
+
+Theorem replay_on_add : forall ops s h own i,
+  st_sub (run ops) s = Some i ->
+  r_out (step (run ops) (AddHandler s h own)) = replay s h (sub_cache (run ops) s) /\
+  NoDup (sub_cache (run ops) s) /\
+  (sub_live (run ops) s = true ->
+     exists r, sub_res (run ops) s = Some r /\ sub_cache (run ops) s = store (run ops) r).
+Proof. intros ops s h own i Hs. apply (replay_on_add_gen _ s h own i (Inv_run ops) Hs). Qed.
+
+(* Theorem 4a *)
+Lemma delivery_event_gen : forall tr st r k o s, Inv st -> Link tr st ->
+  filter (to_sub s) (r_out (step st (Event r k o))) =
+  if sub_live st s && match sub_res st s with Some r' => Nat.eqb r' r | None => false end
+  then fanout (map (mk_he s) (t_reg tr s)) (snd (cache_apply k o (store st r)))
+  else [].
+Proof.
+  intros tr st r k o s I L. unfold sub_live, sub_res, store. simpl.
+  destruct (rs_cur (st_rs st r)) as [i|] eqn:Hc; simpl.
+  - rewrite filter_fanout. rewrite (inv_cache st I r i Hc).
+    destruct (inv_cur st I r i Hc) as [_ [Hres _]].
+    destruct (st_sub st s) as [j|] eqn:Hs.
+    + destruct (Nat.eqb_spec (i_res (st_inf st j)) r) as [E|E].
+      * rewrite E, Hc. rewrite andb_true_r. destruct (Nat.eqb_spec j i) as [Ej|Ej].
+        -- subst j. rewrite (lk_reg _ _ L s i Hs). reflexivity.
+        -- rewrite filter_nil_of; [apply fanout_nil|].
+           intros e He. apply (inv_hs st I) in He.
+           destruct (Nat.eqb_spec (he_sub e) s) as [Ee|Ee]; [|reflexivity].
+           rewrite Ee in He. congruence.
+      * rewrite andb_false_r. rewrite filter_nil_of; [apply fanout_nil|].
+        intros e He. apply (inv_hs st I) in He.
+        destruct (Nat.eqb_spec (he_sub e) s) as [Ee|Ee]; [|reflexivity].
+        rewrite Ee in He. rewrite Hs in He. injection He as He. subst j. contradiction.
+    + simpl. rewrite filter_nil_of; [apply fanout_nil|].
+      intros e He. apply (inv_hs st I) in He.
+      destruct (Nat.eqb_spec (he_sub e) s) as [Ee|Ee]; [|reflexivity].
+      rewrite Ee in He. congruence.
+  - destruct (st_sub st s) as [j|] eqn:Hs; simpl; [|reflexivity].
+    destruct (Nat.eqb_spec (i_res (st_inf st j)) r) as [E|E].
+    + rewrite E, Hc. reflexivity.
+    + rewrite andb_false_r. reflexivity.
+Qed.
+
+Theorem delivery_event : forall ops r k o s,
+  filter (to_sub s) (r_out (step (run ops) (Event r k o))) =
+  if sub_live (run ops) s && match sub_res (run ops) s with Some r' => Nat.eqb r' r | None => false end
+  then fanout (map (mk_he s) (t_reg (track ops) s)) (snd (cache_apply k o (store (run ops) r)))
+  else [].
+Proof. intros. apply delivery_event_gen; [apply Inv_run|apply Link_run]. Qed.
+
+(* Theorem 4b *)
+Definition NoEnt (s : nat) (st : state) : Prop :=
+  forall i e, In e (i_hs (st_inf st i)) -> he_sub e <> s.
+
+Lemma NoEnt_after_remove : forall st s, Inv st -> NoEnt s (r_st (step st (RemoveHandlers s))).
+Proof.
+  intros st s I. unfold NoEnt. simpl.
+  destruct (st_sub st s) as [i|] eqn:Hs; simpl; intros i0 e He Heq.
+  - unfold upd in He. destruct (Nat.eqb_spec i0 i) as [Ei|Ei]; simpl in He.
+    + apply filter_In in He. destruct He as [_ He]. rewrite Heq, Nat.eqb_refl in He. discriminate.
+    + apply (inv_hs st I) in He. rewrite Heq in He. congruence.
+  - apply (inv_hs st I) in He. rewrite Heq in He. congruence.
+Qed.
+
+Lemma NoEnt_step : forall st s o, mentions_add s o = false -> NoEnt s st -> NoEnt s (r_st (step st o)).
+Proof.
+  intros st s o Hm N. unfold NoEnt. destruct o as [r|s0 h own|s0|s0|r k o|s0 h]; simpl in *.
+  - destruct (rs_cur (st_rs st r)); simpl; intros i0 e He.
+    + exact (N _ _ He).
+    + unfold upd in He. destruct (Nat.eqb_spec i0 (st_ninf st)); simpl in He; [contradiction|].
+      exact (N _ _ He).
+  - destruct (st_sub st s0) as [i|]; simpl; [|exact N].
+    intros i0 e He. unfold upd in He. destruct (Nat.eqb_spec i0 i); simpl in He.
+    + apply in_app_iff in He. destruct He as [He|[He|[]]]; [exact (N _ _ He)|].
+      subst e. simpl. apply Nat.eqb_neq. exact Hm.
+    + exact (N _ _ He).
+  - destruct (st_sub st s0) as [i|]; simpl; [|exact N].
+    intros i0 e He. unfold upd in He. destruct (Nat.eqb_spec i0 i); simpl in He.
+    + apply filter_In in He. destruct He as [He _]. subst i0. exact (N _ _ He).
+    + exact (N _ _ He).
+  - destruct (st_sub st s0) as [i|]; simpl; [|exact N].
+    destruct (2 <=? rs_ref (st_rs st (i_res (st_inf st i)))); simpl; [exact N|].
+    destruct (i_stopped (st_inf st i)); simpl; [exact N|].
+    intros i0 e He. unfold upd in He. destruct (Nat.eqb_spec i0 i); simpl in He.
+    + subst i0. exact (N _ _ He).
+    + exact (N _ _ He).
+  - destruct (rs_cur (st_rs st r)) as [i|]; simpl; [|exact N].
+    intros i0 e He. unfold upd in He. destruct (Nat.eqb_spec i0 i); simpl in He.
+    + subst i0. exact (N _ _ He).
+    + exact (N _ _ He).
+  - destruct (st_sub st s0); exact N.
+Qed.
+
+Lemma NoEnt_out : forall st s o, mentions_add s o = false -> NoEnt s st ->
+  filter (to_sub s) (r_out (step st o)) = [].
+Proof.
+  intros st s o Hm N. destruct o as [r|s0 h own|s0|s0|r k o|s0 h]; simpl in *.
+  - destruct (rs_cur (st_rs st r)); reflexivity.
+  - destruct (st_sub st s0) as [i|]; simpl; [|reflexivity].
+    apply filter_replay_other. apply Nat.eqb_neq. exact Hm.
+  - destruct (st_sub st s0); reflexivity.
+  - destruct (st_sub st s0) as [i|]; simpl; [|reflexivity].
+    destruct (2 <=? rs_ref (st_rs st (i_res (st_inf st i)))); simpl; [reflexivity|].
+    destruct (i_stopped (st_inf st i)); reflexivity.
+  - destruct (rs_cur (st_rs st r)) as [i|]; simpl; [|reflexivity].
+    rewrite filter_fanout. rewrite filter_nil_of; [apply fanout_nil|].
+    intros e He. pose proof (N _ _ He) as Hn. destruct (Nat.eqb_spec (he_sub e) s); [contradiction|reflexivity].
+  - destruct (st_sub st s0) as [i|]; simpl; [|reflexivity].
+    destruct (Nat.eqb_spec s0 s) as [E|E].
+    + subst s0. rewrite has_own_none; [reflexivity|]. intros e He. exact (N _ _ He).
+    + destruct (has_own s0 h (i_hs (st_inf st i))); [|reflexivity].
+      apply filter_replay_other. exact E.
+Qed.
+
+Lemma nothing_from : forall s ops st,
+  forallb (fun o => negb (mentions_add s o)) ops = true -> NoEnt s st ->
+  filter (to_sub s) (outs_from st ops) = [].
+Proof.
+  intros s ops. induction ops as [|o ops IH]; intros st Hf N; [reflexivity|].
+  simpl in Hf. apply andb_true_iff in Hf. destruct Hf as [Ho Hf].
+  apply negb_true_iff in Ho.
+  rewrite outs_from_cons, filter_app. rewrite (NoEnt_out st s o Ho N). simpl.
+  apply IH; [exact Hf|apply NoEnt_step; assumption].
+Qed.
+
+Theorem nothing_after_removal : forall ops1 ops2 s,
+  forallb (fun o => negb (mentions_add s o)) ops2 = true ->
+  filter (to_sub s) (outs_from (run (ops1 ++ [RemoveHandlers s])) ops2) = [].
+Proof.
+  intros ops1 ops2 s Hf. rewrite run_app. apply nothing_from; [exact Hf|].
+  apply (NoEnt_after_remove (run ops1) s (Inv_run ops1)).
+Qed.
+
+(* tick *)
+Lemma tick_delivery_gen : forall tr st s h, Inv st -> Link tr st ->
+  r_out (step st (Tick s h)) =
+  if existsb (fun p => Nat.eqb (fst p) h && snd p) (t_reg tr s)
+  then replay s h (sub_cache st s) else [].
+Proof.
+  intros tr st s h I L. unfold sub_cache. simpl.
+  destruct (st_sub st s) as [i|] eqn:Hs; simpl.
+  - rewrite has_own_filter, (lk_reg _ _ L s i Hs), has_own_map. reflexivity.
+  - rewrite (lk_reg_none _ _ L s Hs). reflexivity.
+Qed.
+
+Theorem tick_delivery : forall ops s h,
+  r_out (step (run ops) (Tick s h)) =
+  if existsb (fun p => Nat.eqb (fst p) h && snd p) (t_reg (track ops) s)
+  then replay s h (sub_cache (run ops) s) else [].
+Proof. intros. apply tick_delivery_gen; [apply Inv_run|apply Link_run]. Qed.
+End Link.
+
+(* ================================================================== *)
+(* reference counts under well-formed use of Close; Close is not idempotent; isolation of Close *)
+(* ================================================================== *)
+Module Wf.
+(* C18Wf.v — well-formed use of Close: refcount = number of open subscriptions,
+   no panic, liveness of open subscriptions, isolation of Close. *)
+Local Arguments Nat.leb : simpl never.   (* so that simpl keeps `2 <=? n` in the Close case of step *)
+
+(* ------------------------------------------------------------------ *)
+(* counting lemmas on the list of open (subscription, resource) pairs  *)
+(* ------------------------------------------------------------------ *)
+Local Notation rm s l := (filter (fun p : nat * nat => negb (Nat.eqb (fst p) s)) l).
+Local Notation cnt r l := (length (filter (fun p : nat * nat => Nat.eqb (snd p) r) l)).
+
+Lemma rm_notin : forall s (l : list (nat * nat)), ~ In s (map fst l) -> rm s l = l.
+Proof.
+  induction l as [|p l IH]; simpl; intros H; [reflexivity|].
+  destruct (Nat.eqb_spec (fst p) s) as [E|E]; simpl.
+  - exfalso. apply H. left. exact E.
+  - f_equal. apply IH. intro; apply H; right; assumption.
+Qed.
+
+Lemma in_map_fst : forall (s r : nat) l, In (s, r) l -> In s (map fst l).
+Proof. intros. change s with (fst (s, r)). apply in_map. assumption. Qed.
+
+Lemma cnt_rm : forall s r (l : list (nat * nat)), NoDup (map fst l) -> In (s, r) l ->
+  cnt r l = S (cnt r (rm s l)) /\ forall x, x <> r -> cnt x (rm s l) = cnt x l.
+Proof.
+  induction l as [|p l IH]; simpl; intros Hnd Hin; [contradiction|].
+  inversion Hnd as [|? ? Hni Hnd']; subst.
+  destruct Hin as [E|Hin].
+  - subst p. simpl in *. rewrite !Nat.eqb_refl. simpl. rewrite (rm_notin s l Hni). split; [reflexivity|].
+    intros x Hx. destruct (Nat.eqb_spec r x); [congruence|]. reflexivity.
+  - destruct (Nat.eqb_spec (fst p) s) as [E|E].
+    + exfalso. apply Hni. rewrite E. eapply in_map_fst; eauto.
+    + simpl. destruct (IH Hnd' Hin) as [H1 H2]. split.
+      * destruct (Nat.eqb (snd p) r); simpl; rewrite H1; reflexivity.
+      * intros x Hx. destruct (Nat.eqb (snd p) x); simpl; rewrite (H2 x Hx); reflexivity.
+Qed.
+
+Lemma In_cnt_pos : forall s r (l : list (nat * nat)), In (s, r) l -> 0 < cnt r l.
+Proof.
+  intros s r l Hin.
+  assert (H : In (s, r) (filter (fun p : nat * nat => Nat.eqb (snd p) r) l)).
+  { apply filter_In. split; [assumption|simpl; apply Nat.eqb_refl]. }
+  destruct (filter (fun p : nat * nat => Nat.eqb (snd p) r) l); [contradiction|simpl; lia].
+Qed.
+
+Lemma cnt_two : forall a b r (l : list (nat * nat)), NoDup (map fst l) -> a <> b ->
+  In (a, r) l -> In (b, r) l -> 2 <= cnt r l.
+Proof.
+  intros a b r l Hnd Hne Ha Hb.
+  destruct (cnt_rm a r l Hnd Ha) as [H1 _].
+  assert (Hb' : In (b, r) (rm a l)).
+  { apply filter_In. split; [assumption|]. simpl. destruct (Nat.eqb_spec b a); [congruence|reflexivity]. }
+  apply In_cnt_pos in Hb'. lia.
+Qed.
+
+Lemma cnt_snoc : forall x n r (l : list (nat * nat)),
+  cnt x (l ++ [(n, r)]) = cnt x l + (if Nat.eqb r x then 1 else 0).
+Proof.
+  intros. rewrite filter_app, app_length. simpl. destruct (Nat.eqb r x); reflexivity.
+Qed.
+
+Lemma NoDup_map_fst_filter : forall (f : nat * nat -> bool) l,
+  NoDup (map fst l) -> NoDup (map fst (filter f l)).
+Proof.
+  induction l as [|p l IH]; simpl; intros Hnd; [constructor|].
+  inversion Hnd as [|? ? Hni Hnd']; subst.
+  destruct (f p); simpl; [|apply IH; assumption].
+  constructor; [|apply IH; assumption].
+  intro Hin. apply Hni. apply in_map_iff in Hin. destruct Hin as [q [E Hq]].
+  apply filter_In in Hq. destruct Hq as [Hq _]. rewrite <- E. apply in_map. assumption.
+Qed.
+
+Lemma is_open_In : forall tr s, is_open tr s = true -> exists r, In (s, r) (t_open tr).
+Proof.
+  intros tr s H. unfold is_open in H. apply existsb_exists in H.
+  destruct H as [[s' r] [Hin E]]. simpl in E. apply Nat.eqb_eq in E. subst. exists r. assumption.
+Qed.
+
+(* ------------------------------------------------------------------ *)
+(* Part 1: the link between the tracker and the factory state          *)
+(* ------------------------------------------------------------------ *)
+Record WLink (tr : tracker) (st : state) : Prop := {
+  wl_nsub : t_nsub tr = st_nsub st;
+  wl_ids : forall p, In p (t_open tr) -> fst p < t_nsub tr;
+  wl_nodup : NoDup (map fst (t_open tr));
+  wl_ref : forall r, rs_ref (st_rs st r) = open_count tr r;
+  wl_live : forall s r, In (s, r) (t_open tr) -> exists i, st_sub st s = Some i /\ rs_cur (st_rs st r) = Some i
+}.
+
+Lemma WLink_init : WLink tr0 init.
+Proof. constructor; simpl; intros; try contradiction; try reflexivity. constructor. Qed.
+
+Lemma WLink_step : forall tr st o, Inv st -> WLink tr st -> wf_step tr o = true ->
+   WLink (track_step tr o) (r_st (step st o)) /\ r_panic (step st o) = false.
+Proof.
+  intros tr st o I W Hwf. destruct W as [Wn Wi Wd Wr Wl].
+  destruct o as [r|s h own|s|s|r k o|s h].
+  - (* Subscribe *)
+    assert (Hids : forall p, In p (t_open tr ++ [(t_nsub tr, r)]) -> fst p < S (t_nsub tr)).
+    { intros p Hp. apply in_app_iff in Hp. destruct Hp as [Hp|[Hp|[]]];
+        [specialize (Wi p Hp); lia|subst p; simpl; lia]. }
+    assert (Hnd : NoDup (map fst (t_open tr ++ [(t_nsub tr, r)]))).
+    { rewrite map_app. simpl. apply NoDup_snoc; [assumption|]. intro Hin.
+      apply in_map_iff in Hin. destruct Hin as [p [E Hp]]. specialize (Wi p Hp). lia. }
+    simpl. destruct (rs_cur (st_rs st r)) as [i|] eqn:Hc; simpl; (split; [|reflexivity]).
+    + constructor; simpl; try assumption.
+      * congruence.
+      * intros x. unfold open_count. simpl. rewrite cnt_snoc. unfold upd.
+        destruct (Nat.eqb_spec x r).
+        -- subst. rewrite Nat.eqb_refl. simpl. rewrite Wr. unfold open_count. lia.
+        -- destruct (Nat.eqb_spec r x); [congruence|]. rewrite Wr. unfold open_count. lia.
+      * intros s x Hp. apply in_app_iff in Hp. destruct Hp as [Hp|[Hp|[]]].
+        -- destruct (Wl s x Hp) as [j [H1 H2]]. specialize (Wi _ Hp). simpl in Wi.
+           exists j. rewrite upd_other by lia. split; [assumption|].
+           unfold upd. destruct (Nat.eqb_spec x r); simpl; [subst; congruence|assumption].
+        -- inversion Hp; subst. exists i. rewrite Wn, !upd_same. simpl. split; reflexivity.
+    + assert (Hz : rs_ref (st_rs st r) = 0) by (apply (inv_ref st I); assumption).
+      constructor; simpl; try assumption.
+      * congruence.
+      * intros x. unfold open_count. simpl. rewrite cnt_snoc. unfold upd.
+        destruct (Nat.eqb_spec x r).
+        -- subst. rewrite Nat.eqb_refl. simpl. rewrite Wr in Hz. unfold open_count in Hz. lia.
+        -- destruct (Nat.eqb_spec r x); [congruence|]. rewrite Wr. unfold open_count. lia.
+      * intros s x Hp. apply in_app_iff in Hp. destruct Hp as [Hp|[Hp|[]]].
+        -- destruct (Wl s x Hp) as [j [H1 H2]]. specialize (Wi _ Hp). simpl in Wi.
+           exists j. rewrite upd_other by lia. split; [assumption|].
+           unfold upd. destruct (Nat.eqb_spec x r); simpl; [subst; congruence|assumption].
+        -- inversion Hp; subst. exists (st_ninf st). rewrite Wn, !upd_same. simpl. split; reflexivity.
+  - (* AddHandler *)
+    simpl. assert (Ht : WLink (if s <? t_nsub tr
+                   then mkTr (t_nsub tr) (t_open tr) (upd (t_reg tr) s (t_reg tr s ++ [(h, own)])) (t_store tr)
+                   else tr) st).
+    { destruct (s <? t_nsub tr); constructor; simpl; assumption. }
+    destruct (st_sub st s) as [i|] eqn:Hs; simpl; (split; [|reflexivity]); [|exact Ht].
+    destruct Ht as [Tn Ti Td Tr Tl]. constructor; simpl; assumption.
+  - (* RemoveHandlers *)
+    simpl. destruct (st_sub st s) as [i|] eqn:Hs; simpl; (split; [|reflexivity]);
+      constructor; simpl; assumption.
+  - (* Close *)
+    simpl in Hwf. apply is_open_In in Hwf. destruct Hwf as [r Hin].
+    destruct (Wl s r Hin) as [i [Hs Hc]].
+    destruct (inv_cur st I r i Hc) as [Hi [Hres Hstop]].
+    destruct (cnt_rm s r (t_open tr) Wd Hin) as [Hcnt Hoth].
+    pose proof (Wr r) as Hr. unfold open_count in Hr.
+    assert (Hnd : NoDup (map fst (rm s (t_open tr)))) by (apply NoDup_map_fst_filter; assumption).
+    assert (Hids : forall p, In p (rm s (t_open tr)) -> fst p < t_nsub tr).
+    { intros p Hp. apply filter_In in Hp. apply Wi. apply Hp. }
+    simpl. rewrite Hs, Hres.
+    destruct (2 <=? rs_ref (st_rs st r)) eqn:Hge; simpl.
+    + apply Nat.leb_le in Hge. split; [|reflexivity]. constructor; simpl; try assumption.
+      * intros x. unfold open_count. simpl. unfold upd. destruct (Nat.eqb_spec x r); simpl.
+        -- subst. lia.
+        -- rewrite (Hoth x n). apply Wr.
+      * intros s' x Hp. apply filter_In in Hp. destruct Hp as [Hp _].
+        destruct (Wl s' x Hp) as [j [H1 H2]]. exists j. split; [assumption|].
+        unfold upd. destruct (Nat.eqb_spec x r); simpl; [subst; assumption|assumption].
+    + apply Nat.leb_gt in Hge. rewrite Hstop. simpl. split; [|reflexivity].
+      constructor; simpl; try assumption.
+      * intros x. unfold open_count. simpl. unfold upd. destruct (Nat.eqb_spec x r); simpl.
+        -- subst. lia.
+        -- rewrite (Hoth x n). apply Wr.
+      * intros s' x Hp.
+        assert (Hx : x <> r).
+        { intro; subst x. apply In_cnt_pos in Hp. lia. }
+        apply filter_In in Hp. destruct Hp as [Hp _].
+        destruct (Wl s' x Hp) as [j [H1 H2]]. exists j. split; [assumption|].
+        rewrite upd_other by assumption. assumption.
+  - (* Event *)
+    simpl. destruct (rs_cur (st_rs st r)) as [i|] eqn:Hc; simpl; (split; [|reflexivity]).
+    + constructor; simpl; try assumption.
+      * intros x. unfold upd. destruct (Nat.eqb_spec x r); simpl; [subst|]; apply Wr.
+      * intros s x Hp. destruct (Wl s x Hp) as [j [H1 H2]]. exists j. split; [assumption|].
+        unfold upd. destruct (Nat.eqb_spec x r); simpl; [subst; congruence|assumption].
+    + constructor; simpl; try assumption.
+      * intros x. unfold upd. destruct (Nat.eqb_spec x r); simpl; [subst|]; apply Wr.
+      * intros s x Hp. destruct (Wl s x Hp) as [j [H1 H2]]. exists j. split; [assumption|].
+        unfold upd. destruct (Nat.eqb_spec x r); simpl; [subst; congruence|assumption].
+  - (* Tick *)
+    simpl. destruct (st_sub st s) as [i|] eqn:Hs; simpl; (split; [|reflexivity]);
+      constructor; simpl; assumption.
+Qed.
+
+Lemma WLink_run_from : forall ops tr st, Inv st -> WLink tr st -> wf_from tr ops = true ->
+   WLink (track_from tr ops) (run_from st ops) /\ panics_from st ops = false.
+Proof.
+  induction ops as [|o ops IH]; intros tr st I W Hwf; simpl.
+  - split; [assumption|reflexivity].
+  - simpl in Hwf. apply andb_true_iff in Hwf. destruct Hwf as [H1 H2].
+    destruct (WLink_step tr st o I W H1) as [W' Hp].
+    destruct (IH _ _ (Inv_step st o I) W' H2) as [W'' Hp'].
+    split; [assumption|]. rewrite Hp, Hp'. reflexivity.
+Qed.
+
+Lemma WLink_run : forall ops, wf_ops ops = true ->
+  WLink (track ops) (run ops) /\ panics_from init ops = false.
+Proof. intros ops H. apply WLink_run_from; [apply Inv_init|apply WLink_init|exact H]. Qed.
+
+(* ------------------------------------------------------------------ *)
+(* Part 2: theorems                                                     *)
+(* ------------------------------------------------------------------ *)
+Theorem running_iff_refcount : forall ops r, running (run ops) r = true <-> 0 < refcount (run ops) r.
+Proof.
+  intros ops r. pose proof (inv_ref _ (Inv_run ops) r) as [H1 H2].
+  unfold running, refcount. destruct (rs_cur (st_rs (run ops) r)) as [i|] eqn:Hc.
+  - split; [|reflexivity]. intros _.
+    destruct (rs_ref (st_rs (run ops) r)); [|lia]. specialize (H2 eq_refl). discriminate.
+  - split; [discriminate|]. intro H. rewrite (H1 eq_refl) in H. lia.
+Qed.
+
+Theorem refcount_is_open_count : forall ops r, wf_ops ops = true ->
+  refcount (run ops) r = open_count (track ops) r /\
+  (running (run ops) r = true <-> 0 < open_count (track ops) r).
+Proof.
+  intros ops r Hwf. destruct (WLink_run ops Hwf) as [W _].
+  assert (E : refcount (run ops) r = open_count (track ops) r) by (apply (wl_ref _ _ W)).
+  split; [exact E|]. rewrite <- E. apply running_iff_refcount.
+Qed.
+
+Theorem wf_no_panic : forall ops, wf_ops ops = true -> panics_from init ops = false.
+Proof. intros ops Hwf. apply (WLink_run ops Hwf). Qed.
+
+Lemma WLink_sub_live : forall tr st s r, Inv st -> WLink tr st -> In (s, r) (t_open tr) ->
+  sub_live st s = true /\ sub_res st s = Some r.
+Proof.
+  intros tr st s r I W Hin. destruct (wl_live _ _ W s r Hin) as [i [Hs Hc]].
+  destruct (inv_cur st I r i Hc) as [_ [Hres _]].
+  unfold sub_live, sub_res. rewrite Hs, Hres, Hc, Nat.eqb_refl. split; reflexivity.
+Qed.
+
+(* every open subscription is attached to the running informer of its resource *)
+Theorem open_sub_is_live : forall ops s r, wf_ops ops = true -> In (s, r) (t_open (track ops)) ->
+  sub_live (run ops) s = true /\ sub_res (run ops) s = Some r.
+Proof.
+  intros ops s r Hwf Hin. destruct (WLink_run ops Hwf) as [W _].
+  eapply WLink_sub_live; eauto. apply Inv_run.
+Qed.
+
+Lemma close_live_step : forall st s r, Inv st ->
+  sub_live st s = true -> sub_res st s = Some r ->
+  refcount (r_st (step st (Close s))) r = refcount st r - 1 /\
+  (refcount st r = 1 -> running (r_st (step st (Close s))) r = false) /\
+  r_panic (step st (Close s)) = false.
+Proof.
+  intros st s r I Hl Hr. unfold sub_live in Hl. unfold sub_res in Hr.
+  destruct (st_sub st s) as [i|] eqn:Hs; [|discriminate].
+  injection Hr as Hr. rewrite Hr in Hl.
+  destruct (rs_cur (st_rs st r)) as [j|] eqn:Hc; [|discriminate].
+  apply Nat.eqb_eq in Hl. subst j.
+  destruct (inv_cur st I r i Hc) as [_ [_ Hstop]].
+  assert (Hnz : rs_ref (st_rs st r) <> 0).
+  { intro Hz. apply (inv_ref st I) in Hz. congruence. }
+  unfold refcount, running. simpl. rewrite Hs, Hr.
+  destruct (2 <=? rs_ref (st_rs st r)) eqn:Hge; simpl.
+  - apply Nat.leb_le in Hge. rewrite upd_same. simpl. repeat split. intro; lia.
+  - apply Nat.leb_gt in Hge. rewrite Hstop. simpl. rewrite upd_same. simpl.
+    repeat split. lia.
+Qed.
+
+(* Close is not idempotent per subscription: EVERY call through a subscription attached to the running
+   informer decrements, whether or not that subscription was closed before *)
+Theorem close_always_decrements : forall ops s r,
+  sub_live (run ops) s = true -> sub_res (run ops) s = Some r ->
+  let st' := r_st (step (run ops) (Close s)) in
+  refcount st' r = refcount (run ops) r - 1 /\
+  (refcount (run ops) r = 1 -> running st' r = false) /\
+  r_panic (step (run ops) (Close s)) = false.
+Proof. intros ops s r Hl Hr. apply close_live_step; [apply Inv_run|assumption|assumption]. Qed.
+
+(* ------------------------------------------------------------------ *)
+(* isolation of Close                                                   *)
+(* ------------------------------------------------------------------ *)
+(* a pair that left the open list never comes back *)
+Lemma t_nsub_mono_step : forall tr o, t_nsub tr <= t_nsub (track_step tr o).
+Proof.
+  intros tr o. destruct o as [x|s h own|s|s|x k o|s h]; simpl; try lia.
+  unfold track_step. destruct (s <? t_nsub tr); simpl; lia.
+Qed.
+
+Lemma open_step_back : forall tr o b r, b < t_nsub tr ->
+  In (b, r) (t_open (track_step tr o)) -> In (b, r) (t_open tr).
+Proof.
+  intros tr o b r Hlt H. destruct o as [x|s h own|s|s|x k o|s h].
+  - simpl in H. apply in_app_iff in H. destruct H as [H|[H|[]]]; [assumption|]. inversion H; lia.
+  - unfold track_step in H. destruct (s <? t_nsub tr); exact H.
+  - exact H.
+  - simpl in H. apply filter_In in H. apply H.
+  - exact H.
+  - exact H.
+Qed.
+
+Lemma open_from_back : forall ops tr b r, b < t_nsub tr ->
+  In (b, r) (t_open (track_from tr ops)) -> In (b, r) (t_open tr).
+Proof.
+  induction ops as [|o ops IH]; intros tr b r Hlt H; simpl in H; [assumption|].
+  apply (open_step_back tr o); [assumption|]. apply IH; [|assumption].
+  pose proof (t_nsub_mono_step tr o). lia.
+Qed.
+
+(* sl and sr agree on everything except the reference count of r, which is one higher in sr *)
+Record RefSim (r : nat) (sl sr : state) : Prop := {
+  fs_ninf : st_ninf sl = st_ninf sr;
+  fs_nsub : st_nsub sl = st_nsub sr;
+  fs_inf : forall i, st_inf sl i = st_inf sr i;
+  fs_sub : forall s, st_sub sl s = st_sub sr s;
+  fs_cur : forall x, rs_cur (st_rs sl x) = rs_cur (st_rs sr x);
+  fs_gen : forall x, rs_gen (st_rs sl x) = rs_gen (st_rs sr x);
+  fs_store : forall x, rs_store (st_rs sl x) = rs_store (st_rs sr x);
+  fs_ref : forall x, x <> r -> rs_ref (st_rs sl x) = rs_ref (st_rs sr x);
+  fs_ref_r : rs_ref (st_rs sr r) = S (rs_ref (st_rs sl r))
+}.
+
+Lemma RefSim_step : forall r b trL sl sr o,
+  Inv sl -> WLink trL sl -> RefSim r sl sr ->
+  In (b, r) (t_open trL) -> wf_step trL o = true -> In (b, r) (t_open (track_step trL o)) ->
+  RefSim r (r_st (step sl o)) (r_st (step sr o)) /\ r_out (step sl o) = r_out (step sr o).
+Proof.
+  intros r b trL sl sr o I W R Hb Hwf Hb'.
+  pose proof R as R0.
+  destruct R as [Hninf Hnsub Hinf Hsub Hcur Hgen Hstore Href Hrefr].
+  destruct (wl_live _ _ W b r Hb) as [ib [Hsb Hcb]].
+  Ltac fin_sim Hninf Hnsub Hinf Hsub Hcur Hgen Hstore Href :=
+    constructor; simpl; intros; unfold upd;
+    repeat match goal with |- context [Nat.eqb ?a ?b] => destruct (Nat.eqb_spec a b) end;
+    simpl;
+    rewrite ?Hninf, ?Hnsub, ?Hinf, ?Hsub, ?Hcur, ?Hgen, ?Hstore;
+    try match goal with H : _ <> _ |- _ => learn (Href _ H) end;
+    first [reflexivity | congruence | lia].
+  destruct o as [x|s h own|s|s|x k o|s h]; simpl.
+  - (* Subscribe *)
+    rewrite <- Hcur. destruct (rs_cur (st_rs sl x)) as [i|] eqn:Hc; simpl; (split; [|reflexivity]).
+    + fin_sim Hninf Hnsub Hinf Hsub Hcur Hgen Hstore Href.
+    + assert (Hx : x <> r) by congruence.
+      fin_sim Hninf Hnsub Hinf Hsub Hcur Hgen Hstore Href.
+  - (* AddHandler *)
+    rewrite <- Hsub. destruct (st_sub sl s) as [i|] eqn:Hs; simpl; [|split; [exact R0|reflexivity]].
+    split; [|rewrite ?Hinf; reflexivity].
+    fin_sim Hninf Hnsub Hinf Hsub Hcur Hgen Hstore Href.
+  - (* RemoveHandlers *)
+    rewrite <- Hsub. destruct (st_sub sl s) as [i|] eqn:Hs; simpl; [|split; [exact R0|reflexivity]].
+    split; [|reflexivity].
+    fin_sim Hninf Hnsub Hinf Hsub Hcur Hgen Hstore Href.
+  - (* Close *)
+    rewrite <- Hsub. destruct (st_sub sl s) as [i|] eqn:Hs; simpl; [|split; [exact R0|reflexivity]].
+    rewrite <- Hinf.
+    destruct (Nat.eq_dec (i_res (st_inf sl i)) r) as [E|E].
+    + (* same resource as b: s and b are two open subscriptions on r, both sides decrement *)
+      assert (H2 : 2 <= rs_ref (st_rs sl r)).
+      { simpl in Hwf. apply is_open_In in Hwf. destruct Hwf as [r2 Hin].
+        destruct (wl_live _ _ W s r2 Hin) as [i2 [Hs2 Hc2]].
+        assert (i2 = i) by congruence. subst i2.
+        destruct (inv_cur sl I r2 i Hc2) as [_ [Hres _]].
+        assert (r2 = r) by congruence. clear Hres. subst r2.
+        rewrite (wl_ref _ _ W). unfold open_count.
+        apply (cnt_two s b); [apply (wl_nodup _ _ W)| |assumption|assumption].
+        simpl in Hb'. apply filter_In in Hb'. destruct Hb' as [_ Hb']. simpl in Hb'.
+        destruct (Nat.eqb_spec b s); [discriminate|congruence]. }
+      rewrite E.
+      replace (2 <=? rs_ref (st_rs sl r)) with true by (symmetry; apply Nat.leb_le; lia).
+      replace (2 <=? rs_ref (st_rs sr r)) with true by (symmetry; apply Nat.leb_le; lia).
+      simpl. split; [|reflexivity].
+      fin_sim Hninf Hnsub Hinf Hsub Hcur Hgen Hstore Href.
+    + rewrite <- (Href _ E).
+      destruct (2 <=? rs_ref (st_rs sl (i_res (st_inf sl i)))); simpl.
+      * split; [|reflexivity]. fin_sim Hninf Hnsub Hinf Hsub Hcur Hgen Hstore Href.
+      * destruct (i_stopped (st_inf sl i)); simpl; (split; [|reflexivity]); [exact R0|].
+        fin_sim Hninf Hnsub Hinf Hsub Hcur Hgen Hstore Href.
+  - (* Event *)
+    rewrite <- Hcur. destruct (rs_cur (st_rs sl x)) as [i|] eqn:Hc; simpl.
+    + split; [|rewrite ?Hinf; reflexivity].
+      fin_sim Hninf Hnsub Hinf Hsub Hcur Hgen Hstore Href.
+    + split; [|reflexivity].
+      fin_sim Hninf Hnsub Hinf Hsub Hcur Hgen Hstore Href.
+  - (* Tick *)
+    rewrite <- Hsub. destruct (st_sub sl s) as [i|] eqn:Hs; simpl; [|split; [exact R0|reflexivity]].
+    split; [exact R0|rewrite ?Hinf; reflexivity].
+Qed.
+
+Lemma RefSim_run : forall r b ops trL sl sr,
+  Inv sl -> WLink trL sl -> RefSim r sl sr -> In (b, r) (t_open trL) ->
+  wf_from trL ops = true -> In (b, r) (t_open (track_from trL ops)) ->
+  trace_from sl ops = trace_from sr ops.
+Proof.
+  induction ops as [|o ops IH]; intros trL sl sr I W R Hb Hwf Hend; simpl; [reflexivity|].
+  simpl in Hwf, Hend. apply andb_true_iff in Hwf. destruct Hwf as [H1 H2].
+  destruct (WLink_step trL sl o I W H1) as [W' _].
+  assert (Hb' : In (b, r) (t_open (track_step trL o))).
+  { apply (open_from_back ops); [|assumption].
+    pose proof (wl_ids _ _ W _ Hb) as Hlt. pose proof (t_nsub_mono_step trL o). simpl in Hlt. lia. }
+  destruct (RefSim_step r b trL sl sr o I W R Hb H1 Hb') as [R' Ho].
+  rewrite Ho. f_equal.
+  apply (IH (track_step trL o)); try assumption. apply Inv_step; assumption.
+Qed.
+
+Lemma close_out_nil : forall st s, r_out (step st (Close s)) = [].
+Proof.
+  intros st s. simpl. destruct (st_sub st s); [|reflexivity].
+  destruct (2 <=? _); [reflexivity|]. destruct (i_stopped _); reflexivity.
+Qed.
+
+(* isolation of Close: if a and b are both open on resource r, closing a changes no delivery at all
+   (in particular none of b's) as long as b stays open *)
+Theorem isolation_close : forall ops1 ops2 a b r,
+  wf_ops (ops1 ++ Close a :: ops2) = true -> a <> b ->
+  In (a, r) (t_open (track ops1)) -> In (b, r) (t_open (track ops1)) ->
+  In (b, r) (t_open (track (ops1 ++ Close a :: ops2))) ->
+  trace_from (run (ops1 ++ [Close a])) ops2 = trace_from (run ops1) ops2 /\
+  outs (ops1 ++ Close a :: ops2) = outs (ops1 ++ ops2).
+Proof.
+  intros ops1 ops2 a b r Hwf Hab Ha Hb Hend.
+  unfold wf_ops in Hwf. rewrite wf_from_app in Hwf. apply andb_true_iff in Hwf.
+  destruct Hwf as [Hwf1 Hwf2].
+  change (track_from tr0 ops1) with (track ops1) in Hwf2.
+  simpl in Hwf2. apply andb_true_iff in Hwf2. destruct Hwf2 as [Hwa Hwf2].
+  destruct (WLink_run ops1 Hwf1) as [W _]. pose proof (Inv_run ops1) as I.
+  destruct (WLink_step (track ops1) (run ops1) (Close a) I W Hwa) as [W' _].
+  assert (Hb' : In (b, r) (t_open (track_step (track ops1) (Close a)))).
+  { simpl. apply filter_In. split; [assumption|]. simpl.
+    destruct (Nat.eqb_spec b a); [congruence|reflexivity]. }
+  assert (Hend' : In (b, r) (t_open (track_from (track_step (track ops1) (Close a)) ops2))).
+  { unfold track in Hend. rewrite track_from_app in Hend. exact Hend. }
+  assert (Hrun : run (ops1 ++ [Close a]) = r_st (step (run ops1) (Close a))).
+  { rewrite run_app. reflexivity. }
+  assert (R : RefSim r (r_st (step (run ops1) (Close a))) (run ops1)).
+  { destruct (wl_live _ _ W a r Ha) as [i [Hs Hc]].
+    destruct (inv_cur _ I r i Hc) as [_ [Hres _]].
+    assert (H2 : 2 <= rs_ref (st_rs (run ops1) r)).
+    { rewrite (wl_ref _ _ W). unfold open_count.
+      apply (cnt_two a b); [apply (wl_nodup _ _ W)|assumption|assumption|assumption]. }
+    simpl. rewrite Hs, Hres.
+    replace (2 <=? rs_ref (st_rs (run ops1) r)) with true by (symmetry; apply Nat.leb_le; lia).
+    simpl. constructor; simpl; intros; try reflexivity; unfold upd;
+      repeat match goal with |- context [Nat.eqb ?x ?y] => destruct (Nat.eqb_spec x y) end;
+      simpl; first [reflexivity | congruence | lia]. }
+  assert (T : trace_from (r_st (step (run ops1) (Close a))) ops2 = trace_from (run ops1) ops2).
+  { apply (RefSim_run r b ops2 (track_step (track ops1) (Close a))); try assumption.
+    apply Inv_step; assumption. }
+  split.
+  - rewrite Hrun. exact T.
+  - unfold outs. rewrite !outs_from_app. change (run_from init ops1) with (run ops1).
+    f_equal. rewrite outs_from_cons, close_out_nil, app_nil_l. unfold outs_from. rewrite T. reflexivity.
+Qed.
+End Wf.
+
+(* ================================================================== *)
+(* a fresh informer after the last close *)
+(* ================================================================== *)
+Module Fresh.
+Local Arguments Nat.leb : simpl never.
+
+(* Theorem 2: once the reference count of r is back to 0, the next Subscribe r
+   starts a new informer: a new generation, running, with an empty handler table
+   and a cache that is the server's content (its own LIST) - nothing is carried
+   over, and no earlier subscription is attached to it. *)
+Theorem fresh_after_last_close : forall ops r,
+  refcount (run ops) r = 0 ->
+  let st := run ops in
+  let st' := r_st (step st (Subscribe r)) in
+  let s := st_nsub st in
+  running st r = false /\
+  running st' r = true /\
+  generation st' r = S (generation st r) /\
+  refcount st' r = 1 /\
+  cur_handlers st' r = [] /\
+  cur_cache st' r = store st r /\
+  sub_live st' s = true /\ sub_res st' s = Some r /\
+  (forall s0, s0 <> s -> sub_live st' s0 = true -> sub_res st' s0 <> Some r) /\
+  r_out (step st (Subscribe r)) = [] /\ r_panic (step st (Subscribe r)) = false.
+Proof.
+  intros ops r Href st st' s.
+  pose proof (Inv_run ops) as I. fold st in I.
+  unfold refcount in Href. fold st in Href.
+  assert (Hc : rs_cur (st_rs st r) = None) by (apply (inv_ref st I); exact Href).
+  subst st'. unfold running, generation, refcount, cur_handlers, cur_cache, store, sub_live, sub_res.
+  simpl. rewrite Hc. simpl.
+  rewrite ?upd_same. simpl. rewrite ?upd_same. simpl. rewrite ?upd_same. simpl.
+  rewrite ?Nat.eqb_refl.
+  repeat split; try reflexivity.
+  intros s0 Hne. subst s. rewrite (upd_other _ _ _ _ s0 Hne).
+  destruct (st_sub st s0) as [i|] eqn:Hs0; [|discriminate].
+  destruct (inv_sub st I _ _ Hs0) as [_ Hi].
+  rewrite (upd_other _ _ _ _ i) by lia.
+  intros Hlive Hres. inversion Hres as [Hr]. rewrite Hr, upd_same in Hlive. simpl in Hlive.
+  apply Nat.eqb_eq in Hlive. lia.
+Qed.
+
+(* ... and it works: a handler added through the new subscription gets the
+   server's content replayed and then the next event *)
+Theorem fresh_informer_works : forall ops r h own k o,
+  refcount (run ops) r = 0 ->
+  let st := run ops in
+  let s := st_nsub st in
+  trace_from st [Subscribe r; AddHandler s h own; Event r k o] =
+    [ []; replay s h (store st r);
+      fanout [mkHe s h own] (snd (cache_apply k o (store st r))) ].
+Proof.
+  intros ops r h own k o Href st s.
+  pose proof (Inv_run ops) as I. fold st in I.
+  unfold refcount in Href. fold st in Href.
+  assert (Hc : rs_cur (st_rs st r) = None) by (apply (inv_ref st I); exact Href).
+  unfold store. subst s.
+  cbn [trace_from]. 
+  unfold step at 1 2 3. rewrite Hc. cbn [r_st r_out st_sub st_inf st_rs st_ninf st_nsub].
+  rewrite ?upd_same. cbn [r_st r_out st_sub st_inf st_rs st_ninf st_nsub i_cache i_hs rs_cur rs_store set_hs].
+  rewrite ?upd_same. cbn [r_st r_out i_cache i_hs rs_cur rs_store set_hs app].
+  do 3 f_equal.
+  unfold step. rewrite Hc. cbn. rewrite ?upd_same. cbn. rewrite ?upd_same. cbn. rewrite ?upd_same. cbn.
+  rewrite ?upd_same. cbn.
+  reflexivity.
+Qed.
+End Fresh.
